@@ -462,6 +462,14 @@ JUNK = ['select', 'SELECT', 'from', 'where', 'case', 'when', 'then', 'else', 'en
         '\x00', 'K', 'ſ', 'İ', '\x85', ' ', '\x1c', '\ud800', '\U0001f600',
         '\xa0', '　', 'ﬁrst', 'ſelect', 'KelvinK']
 
+JUNK += [
+    # prefixed strings, continuation backslash, soft hyphen inside a word, dotless-i keywords, NFD text, vendor constructs
+    "U&'d\\0061t'", 'U&"d\\0061t"', "E'a\\'b'", "N'x'", "X'1F'", "B'01'", "e'\\n'", '\\\n', ';\\\n', 'identi\xadfier', 'ıf',
+    'end ıf', 'begın', 'é', '한', 'merge', 'pivot', 'lateral view', 'filter (where a)',
+    'within group (order by a)', 'connect by', 'start with', 'on conflict', 'window w as (partition by a)',
+    'rows between 1 preceding and current row', 'a[1:2]', "a->'b'", "a#>>'{b}'", '%(n)s', ':1', '$1', '@@x',
+    '/* a /* b */ c */', '1e-5', '0xFF', '.5e+3', 'x::int[]', 'mod', 'div', 'while', 'end loop', 'at time zone', ':=']
+
 
 def junk(rng, n=None):
     n = n if n is not None else rng.choice([1, 2, 3, 5, 8, 12, 20, 30])
@@ -474,7 +482,11 @@ BOUNDARY_CPS = [0, 9, 10, 11, 12, 13, 28, 29, 30, 31, 32, 33, 34, 35, 36, 37, 39
                 0xb5, 0xba, 0xbf, 0xc0, 0xd7, 0xdc, 0xdd, 0xdf, 0xe0, 0xfc, 0xfd, 0xff, 0x130, 0x131,
                 0x17f, 0x1c5, 0x345, 0x3c2, 0x3c3, 0x660, 0x1680, 0x2000, 0x2028, 0x2029, 0x202f,
                 0x205f, 0x212a, 0x212b, 0x3000, 0xd7ff, 0xd800, 0xdbff, 0xdc00, 0xdfff, 0xe000,
-                0xfb01, 0xfeff, 0xff10, 0xffff, 0x10000, 0x1d7ce, 0x1f600, 0x10ffff]
+                0xfb01, 0xfeff, 0xff10, 0xffff, 0x10000, 0x1d7ce, 0x1f600, 0x10ffff,
+                # soft hyphen, combining marks, NFD/NFC-unstable letters (jamo, Ohm, Greek oxia, CJK compatibility), zero width,
+                # fullwidth letters, superscript digit, Roman numeral
+                0xad, 0x300, 0x301, 0x308, 0x1112, 0x1161, 0x11ab, 0x2126, 0x1f71, 0xf9dc, 0x200b, 0x200d, 0x2060,
+                0xff53, 0xff25, 0xb2, 0x2163, 0x1e9e, 0x390, 0x1f88]
 
 
 def uni(rng, n=None):
@@ -595,3 +607,29 @@ class ProcGen(SqlGen):
         for _ in range(self.r.choice([0, 1, 2])):
             post += [WS1] + self.statement() + [WS0, ('punct', ';')]
         return pre, self.create(), post
+
+
+# ------------------------------------------------------------------------------------------------
+# long tokens / long runs: size thresholds (buffers, windows, caps) are a classic place for a regression; these inputs are
+# used by the direct oracles only (the model is not run on megabyte inputs)
+def long_cases(quick=True):
+    """[(kind, text, (start, end) of the long region or None)]"""
+    sizes = [70000] if quick else [70000, 300000, 1100000]
+    out = []
+    for n in sizes:
+        body = ('abc;def ghi -- /* ' * (n // 18 + 1))[:n]
+        for kind, l, r in (('long-string', "'", "'"), ('long-dq-name', '"', '"'), ('long-backtick', '`', '`'),
+                           ('long-block-comment', '/*', '*/'), ('long-dollar', '$b$', '$b$')):
+            b = body.replace(r[0], '_') if kind != 'long-block-comment' else body.replace('*/', '* ')
+            pre = 'select 1; update t set c = '
+            text = pre + l + b + r + ' where x = 1; select 2;'
+            out.append((kind, text, (len(pre), len(pre) + len(l + b + r))))
+        out.append(('long-line-comment', 'select 1 -- ' + body.replace('\n', ' ') + '\nfrom t; select 2;', None))
+        out.append(('long-name', 'select ' + 'n' * n + ' from t; select 2;', None))
+        out.append(('long-number', 'select ' + '7' * n + ' from t; select 2;', None))
+        out.append(('long-ws', 'select' + ' ' * n + '1; select 2;', None))
+    out.append(('long-error-run', 'select 1;' + '\x00' * 9000 + ' select 2;', None))
+    out.append(('long-error-run', '{' * 20000, None))
+    out.append(('many-statements', 'select 1;' * (3000 if quick else 40000), None))
+    out.append(('many-items', 'select ' + ', '.join('c%d' % i for i in range(400 if quick else 5000)) + ' from t', None))
+    return out
